@@ -60,4 +60,10 @@ TEXT.update({
   note="The heap model abstracts the non-schema fields as an opaque payload copied by value (CloneSchemas shares their slices/maps, as documented). Trusted: reflection-driven iteration in the Go code corresponds to the model's kids list - exercised by forcing subschemas under every schema-holding field.",
  ),
 })
+TEXT.update({
+ "C15": dict(
+  level="Theorems over the Coq transcription of applyDefaults/validateDefaults: the result extends the instance (present values kept), required properties and undeclared names are never added, non-objects are untouched, and Resolve with ValidateDefaults succeeds exactly when every default of the root tree validates against its declaring subschema (no $dynamicRef, supported $schema). Idempotence and 'inserted values are declared defaults' are evaluated on the package for every case and decided by the correspondence of resulting instances.",
+  note="Partial as stated. Trusted: json.Unmarshal of defaults, reflect; canonical instances only.",
+ ),
+})
 PENDING = {}
